@@ -353,7 +353,7 @@ func scanC18(a *App, m *Mon, sc *StepCtx, rng *rand.Rand, names []string, provs 
 	near := append([]byte(nil), ctxIDs[0]...)
 	near[39] ^= 1
 	ctxIDs = append(ctxIDs, near)
-	batches := []uint64{1, 2, 255, 256, 511, 65535, 1 << 32, 1<<32 - 1}
+	batches := []uint64{1, 2, 255, 256, 511, 65535, 1 << 32, 1<<32 - 1, 1<<63 - 1, 1 << 63, 1<<64 - 2, 1<<64 - 1}
 	type rk struct {
 		ctx   string
 		batch uint64
